@@ -615,7 +615,7 @@ def ref_lex(src):
             if p: break
         if p: out.append(KIND[p]); i += len(p); continue
         if ch in KIND: out.append(KIND[ch]); i += 1; continue
-        out.append('TOTHER'); i += 1
+        out += ['TOTHER'] * max(1, len(src[i].encode('utf-8', 'surrogateescape'))); i += 1          # the scanner works on bytes: a multi-byte character outside a literal is one stray token per byte
     return out, None
 
 
@@ -628,6 +628,8 @@ def rule_random_lex(chk, prog, tier):
     PIECES = ['a', 'u8', 'L', 'U', 'u', 'x1', '_', '0', '1', '12', '0x1f', '1e', '+', '-', '1.', '.5', 'p', 'e', '.', '..', '...', '->', '-', '>', '>>', '>>=', '<', '<<=', '=', '==', '!', '&', '&&', '|', '^', '%',
               '*', '/', '//', '/*', '*/', ':', '::', '#', '##', '?', ';', ',', '(', ')', '[', ']', '{', '}', '~', '"', "'", '"s"', "'c'", '\\n', '\\', '\\x', ' ', '  ', '\t', '\n', '\\\n', '\\\n', '@', '$', '`', '"a\\"b"', "'\\''",
               # form feed and vertical tab are white space; bytes >= 0x80 (also 0xff, which is not EOF) are ordinary characters of comments and literals
+              # a sign continues a pp-number after e/E/p/P whatever the digits before mean (0xe+1 is ONE preprocessing number, 6.4.8)
+              '0xe', '0XE', '0x1p', '1P', '0xe+', '1E-',
               '\f', '\v', ' \f', '"\udcff"', '/*\udcff*/', '//\udcff\n', '"\u00e9"', "'\udcff'"]
     N = 700 if tier == 'quick' else 6000
     cases = []; seen = set()
